@@ -144,3 +144,47 @@ Definition try_from_bits (bits : list bool) (width : N) : outcome conv_error (li
                   then Ok (entries, s) else Err EPadding
            else Ok (entries, s)
        end.
+
+(* ---- the same two functions with O(log n) indexing (finite map built once from the slice);
+        proved equal to the list-indexed versions in Proofs/RenderProofs.v; used by the driver ---- *)
+Section Fast.
+Context {B : Type}.
+Fixpoint fill (l : list B) (i : positive) (m : PX.t B) : PX.t B :=
+  match l with [] => m | x :: r => fill r (Pos.succ i) (PX.add i x m) end.
+Definition slice (l : list B) : PX.t B := fill l 1%positive (PX.empty B).
+Definition at_ (m : PX.t B) (p : N) : option B := PX.find (pkey p) m.
+
+Definition bitmap_fast (LOW HIGH : B) (s : SymbolSize) (entries : list B) : N * list B :=
+  let m := slice entries in
+  (bm_w (content_width s) (extra_vertical_alignments s),
+   map (fun p => match p with
+                 | Fix b => if b then HIGH else LOW
+                 | Ent k => match at_ m k with Some v => v | None => LOW end
+                 end) (layout_of s)).
+End Fast.
+
+Definition try_from_bits_fast (bits : list bool) (width : N) : outcome conv_error (list bool * SymbolSize) :=
+  let blen := N.of_nat (length bits) in
+  if width =? 0 then Err EZeroWidth
+  else if negb (blen mod width =? 0) then Err EDataSize
+  else match find_size width (blen / width) with
+       | None => Err ESymbolSize
+       | Some s =>
+         let acts := actions_of s in
+         let m := slice bits in
+         if negb (forallb (fun a => match a with
+                    | Test p e => match at_ m p with Some b => Bool.eqb b e | None => false end
+                    | Copy _ => true end) acts) then Err EAlignment
+         else
+           let entries := flat_map (fun a => match a with
+                             | Copy p => [match at_ m p with Some v => v | None => false end]
+                             | Test _ _ => [] end) acts in
+           let n := length entries in
+           let w := N.to_nat (content_width s) in
+           if has_padding_modules s then
+             if (n <? w + 2)%nat then Panic PIndex
+             else if Bool.eqb (nth (n - 2) entries false) false && Bool.eqb (nth (n - 1) entries false) true &&
+                     Bool.eqb (nth (n - w - 2) entries false) true && Bool.eqb (nth (n - w - 1) entries false) false
+                  then Ok (entries, s) else Err EPadding
+           else Ok (entries, s)
+       end.
